@@ -213,6 +213,17 @@ func (c *Ctx) Violate(class, kind string, cas any, detail string) {
 	c.allHashes[class] = append(c.allHashes[class], h)
 }
 
+// Violations returns the number of violations recorded so far (all classes).
+func (c *Ctx) Violations() int64 {
+	c.mu.Lock()
+	defer c.mu.Unlock()
+	var n int64
+	for _, v := range c.violCount {
+		n += v
+	}
+	return n
+}
+
 // CaseHash identifies one failing case inside a class.
 func CaseHash(class string, raw []byte) uint64 {
 	s := sha256.Sum256(append([]byte(class+"\x00"), raw...))
